@@ -25,7 +25,9 @@ EFFECTFUL = {
     "blocking_tell_with_timeout_impl", "blocking_ask_with_timeout_impl", "tell_blocking", "ask_blocking",
     "ask_join", "is_alive", "record", "spawn", "spawn_with_mailbox_capacity",
     "set_default_mailbox_capacity", "vx_tokio_spawn__run_actor_lifecycle",
-    "record_message", "update_last_activity",
+    "record_message", "update_last_activity", "get_last_activity", "load", "store", "fetch_max", "vx_rmw_load", "vx_rmw_commit",
+    "MessageProcessingGuard::new", "AtomicU64::new", "MetricsCollector::new", "drop__MessageProcessingGuard", "snapshot", "message_count", "avg_processing_time",
+    "max_processing_time", "metrics",
 }
 
 
@@ -34,7 +36,7 @@ def ACTOR_REF_FNS(features):
              "blocking_tell", "blocking_tell_no_timeout", "tell_blocking",
              "ask", "ask_with_timeout", "blocking_ask", "blocking_ask_no_timeout", "ask_blocking", "ask_join"]
     if "metrics" in features:
-        names += ["metrics_collector"]
+        names += ["metrics_collector", "metrics", "message_count", "avg_processing_time", "max_processing_time"]
     return names
 
 
@@ -425,9 +427,93 @@ SPECS["lib.rs::Drop for WaitForGuard::drop"] = dict(
     ensures=[
         C("wait_for_guard.drop.removes_exactly_its_edge_and_unlocks", "C15 C12", "guard_removed(this.0, *old(w), *final(w))"),
         C("wait_for_guard.drop.frame", "C12",
-          "final(w).current_actor() == old(w).current_actor() && final(w).poisoned() == old(w).poisoned() && final(w).mmon() == old(w).mmon() && final(w).cap_cell() == old(w).cap_cell() && final(w).id_floor() == old(w).id_floor() && final(w).chan_floor() == old(w).chan_floor() && final(w).dl_count() == old(w).dl_count() && final(w).own_strong() == old(w).own_strong()"),
+          "final(w).current_actor() == old(w).current_actor() && final(w).poisoned() == old(w).poisoned() && final(w).mmon() == old(w).mmon() && final(w).cap_cell() == old(w).cap_cell() && final(w).id_floor() == old(w).id_floor() && final(w).chan_floor() == old(w).chan_floor() && final(w).dl_count() == old(w).dl_count() && final(w).own_strong() == old(w).own_strong() && final(w).cells() == old(w).cells()"),
     ],
     requires=[C("wait_for_guard.drop.pre.unlocked", "C12", "!old(w).lock_held()")])
+
+
+# ------------------------------------------------------------------ metrics (feature "metrics")
+MC = "metrics/collector.rs::MetricsCollector::"
+SPECS["metrics/collector.rs::MetricsCollector"] = dict()
+SPECS[MC + "new"] = dict(ensures=[
+    C("metrics.new.cells_fresh_and_zero", "C20", "r.cells_known(*final(w)) && r.coll_inv(*final(w)) && final(w).cells()[r.message_count.cell()] == 0"),
+    C("metrics.new.frame", "C12", "final(w).log() == old(w).log() && same_ambient_but_cells(*old(w), *final(w))"),
+])
+RM_PRE = "(self.cells_known(*old(w)) && old(w).cells()[self.message_count.cell()] < u64::MAX && self.coll_inv(*old(w)))"
+SPECS[MC + "record_message"] = dict(
+    ensures=[
+        C("metrics.record.count_plus_exactly_one", "C20", RM_PRE + " ==> final(w).cells()[self.message_count.cell()] == old(w).cells()[self.message_count.cell()] + 1"),
+        C("metrics.record.max_is_at_least_this_duration", "C20", RM_PRE +
+          " ==> (final(w).cells()[self.max_processing_nanos.cell()] as nat >= sat_nanos(duration) && final(w).cells()[self.max_processing_nanos.cell()] >= old(w).cells()[self.max_processing_nanos.cell()])"),
+        C("metrics.record.total_saturating_add", "C20", RM_PRE +
+          " ==> final(w).cells()[self.total_processing_nanos.cell()] as nat == sat_add_spec(old(w).cells()[self.total_processing_nanos.cell()] as nat, sat_nanos(duration))"),
+        C("metrics.record.invariant_total_le_count_times_max", "C20", RM_PRE + " ==> (self.cells_known(*final(w)) && self.coll_inv(*final(w)))"),
+        C("metrics.record.one_record_event_on_this_collector", "C20", "final(w).mmon() == mstep(old(w).mmon(), MEv::Record(self.cid()))"),
+        C("metrics.record.frame", "C12 C20",
+          "final(w).current_actor() == old(w).current_actor() && final(w).lock_held() == old(w).lock_held() && final(w).own_strong() == old(w).own_strong() && final(w).graph() == old(w).graph() && final(w).poisoned() == old(w).poisoned()"),
+    ],
+    proofs=[("self.update_last_activity(w);", "proof { if " + RM_PRE + " { lemma_coll_inv_step(old(w).cells()[self.message_count.cell()] as int, old(w).cells()[self.total_processing_nanos.cell()] as int, old(w).cells()[self.max_processing_nanos.cell()] as int, sat_nanos(duration) as int); } } vx_mmon_note(Ghost(MEv::Record(self.cid())), w);", "before")],
+)
+SPECS[MC + "message_count"] = dict(ensures=[
+    C("metrics.message_count.reads_the_count_cell", "C20", "self.cells_known(*old(w)) ==> r == old(w).cells()[self.message_count.cell()]")])
+SPECS[MC + "max_processing_time"] = dict(ensures=[
+    C("metrics.max_processing_time.reads_the_max_cell", "C20", "self.cells_known(*old(w)) ==> dur_nanos(r) == old(w).cells()[self.max_processing_nanos.cell()] as nat")])
+SPECS[MC + "avg_processing_time"] = dict(ensures=[
+    C("metrics.avg.is_total_over_count", "C20", "self.cells_known(*old(w)) ==> dur_nanos(r) == avg_spec(old(w).cells()[self.total_processing_nanos.cell()] as nat, old(w).cells()[self.message_count.cell()] as nat)"),
+    C("metrics.avg.le_max_under_invariant", "C20", "(self.cells_known(*old(w)) && self.coll_inv(*old(w))) ==> dur_nanos(r) <= old(w).cells()[self.max_processing_nanos.cell()] as nat"),
+], proofs=[("let total_nanos = self.total_processing_nanos.load(Ordering::Relaxed, w);",
+            "proof { if self.cells_known(*old(w)) && self.coll_inv(*old(w)) { lemma_avg_le_max(total_nanos as int, count as int, old(w).cells()[self.max_processing_nanos.cell()] as int); } }", "after")])
+SPECS[MC + "snapshot"] = dict(ensures=[
+    C("metrics.snapshot.agrees_with_accessors", "C20",
+      "self.cells_known(*old(w)) ==> (r.message_count == old(w).cells()[self.message_count.cell()] "
+      "&& dur_nanos(r.avg_processing_time) == avg_spec(old(w).cells()[self.total_processing_nanos.cell()] as nat, old(w).cells()[self.message_count.cell()] as nat) "
+      "&& dur_nanos(r.max_processing_time) == old(w).cells()[self.max_processing_nanos.cell()] as nat)"),
+    C("metrics.snapshot.avg_le_max_under_invariant", "C20",
+      "(self.cells_known(*old(w)) && self.coll_inv(*old(w))) ==> dur_nanos(r.avg_processing_time) <= dur_nanos(r.max_processing_time)"),
+], proofs=[("let total_nanos = self.total_processing_nanos.load(Ordering::Relaxed, w);",
+            "proof { if self.cells_known(*old(w)) && self.coll_inv(*old(w)) && count > 0 { lemma_avg_le_max(total_nanos as int, count as int, old(w).cells()[self.max_processing_nanos.cell()] as int); } }", "after")])
+SPECS["metrics/collector.rs::MessageProcessingGuard::new"] = dict(ensures=[
+    C("metrics.guard.new.opens_on_given_collector", "C20", "r.collector == collector && final(w).mmon() == mstep(old(w).mmon(), MEv::Open(collector.cid()))"),
+    C("metrics.guard.new.frame", "C12 C20",
+      "final(w).log() == old(w).log() && final(w).current_actor() == old(w).current_actor() && final(w).lock_held() == old(w).lock_held() && final(w).own_strong() == old(w).own_strong() && final(w).cells() == old(w).cells()"),
+], proofs=[("{ /*V0*/", "vx_mmon_note(Ghost(MEv::Open(collector.cid())), w);", "after")])
+SPECS["metrics/collector.rs::Drop for MessageProcessingGuard::drop"] = dict(by_value=True,
+    ensures=[
+        C("metrics.guard.drop.records_once_on_its_collector", "C20", "final(w).mmon() == mstep(old(w).mmon(), MEv::Record(this.collector.cid()))"),
+        C("metrics.guard.drop.frame", "C12 C20",
+          "final(w).current_actor() == old(w).current_actor() && final(w).lock_held() == old(w).lock_held() && final(w).own_strong() == old(w).own_strong()"),
+    ])
+SPECS["actor_ref.rs::ActorRef::metrics_collector"] = dict(pure=True, ensures=[
+    C("actor_ref.metrics_collector.is_own_collector", "C20", "*r == *self.metrics")])
+
+
+# ------------------------------------------------------------------ metrics handles: every derived handle shares the collector (C20)
+def _with_metrics(key, extra):
+    base = SPECS[key]
+    def f(features, base=base, extra=extra):
+        d = dict(base(features) if callable(base) else base)
+        if "metrics" in features:
+            d["ensures"] = list(d.get("ensures", [])) + extra
+        return d
+    SPECS[key] = f
+
+
+_with_metrics("actor_ref.rs::ActorRef::new", [C("actor_ref.new.keeps_given_collector", "C20", "r.metrics.cid() == metrics.cid()")])
+_with_metrics("actor_ref.rs::ActorRef::downgrade", [C("actor_ref.downgrade.shares_collector", "C20", "r.metrics.cid() == this.metrics.cid()")])
+_with_metrics("actor_ref.rs::Clone for ActorRef::clone", [C("actor_ref.clone.shares_collector", "C20", "r.metrics.cid() == self.metrics.cid()")])
+_with_metrics("actor_ref.rs::Clone for ActorWeak::clone", [C("actor_weak.clone.shares_collector", "C20", "r.metrics.cid() == self.metrics.cid()")])
+_with_metrics("actor_ref.rs::ActorWeak::upgrade", [C("actor_weak.upgrade.shares_collector", "C20", "result matches Some(a) ==> a.metrics.cid() == self.metrics.cid()")])
+AR = "actor_ref.rs::ActorRef::"
+SPECS[AR + "message_count"] = dict(ensures=[
+    C("actor_ref.message_count.is_collectors", "C20", "self.metrics.cells_known(*old(w)) ==> r == old(w).cells()[self.metrics.message_count.cell()]")])
+SPECS[AR + "max_processing_time"] = dict(ensures=[
+    C("actor_ref.max_processing_time.is_collectors", "C20", "self.metrics.cells_known(*old(w)) ==> dur_nanos(r) == old(w).cells()[self.metrics.max_processing_nanos.cell()] as nat")])
+SPECS[AR + "avg_processing_time"] = dict(ensures=[
+    C("actor_ref.avg_processing_time.is_collectors", "C20",
+      "self.metrics.cells_known(*old(w)) ==> dur_nanos(r) == avg_spec(old(w).cells()[self.metrics.total_processing_nanos.cell()] as nat, old(w).cells()[self.metrics.message_count.cell()] as nat)")])
+SPECS[AR + "metrics"] = dict(ensures=[
+    C("actor_ref.metrics.snapshot_is_collectors", "C20",
+      "self.metrics.cells_known(*old(w)) ==> (r.message_count == old(w).cells()[self.metrics.message_count.cell()] && dur_nanos(r.max_processing_time) == old(w).cells()[self.metrics.max_processing_nanos.cell()] as nat)")])
 
 
 # ====================================================================== metadata used by ./check
@@ -443,6 +529,12 @@ EXTRA_LABELS = {
     "handle_message.pre.scope@dyn": "C14",
     "ask.deadlock_panic.requires_unanswered_chain": "C15",
     "mutex.no_reentrant_lock": "C12 C14",
+    "hook.on_start.inside_actor_scope": "C14",
+    "hook.inside_actor_scope": "C14",
+    "hook.called_without_wait_for_lock": "C12",
+    "panic_site.wait_for_lock_not_held": "C12",
+    "mpsc.send.message_keeps_this_mailbox_alive": "C01 C07",
+    "timeout.inner_log_extends": "C10",
     "drop_body.never_panics": "C12 C15",
     "handle_message.pre.unlocked@dyn": "C12",
     "spawn.lifecycle_gets_refs_mailbox": "C01 C02 C09",
